@@ -160,7 +160,11 @@ class _DocProxy:
         return f"_DocProxy({repr(self.doc)})"
 
     def __getitem__(self, key):
-        return self.doc[key]
+        value = self.doc[key]
+        if self.dry_run and isinstance(value, Mapping):
+            # Nested mappings must not be modified during a dry run, either.
+            return type(self)(value, dry_run=True)
+        return value
 
     def __setitem__(self, key, value):
         logger.more(f"Set '{key}'='{value}'.")
@@ -468,7 +472,9 @@ class DocSync:
                 if key in dst:
                     if dst[key] == value:
                         continue
-                    elif isinstance(value, Mapping) and isinstance(dst[key], Mapping):
+                    elif isinstance(value, Mapping) and isinstance(
+                        dst[key], (Mapping, _DocProxy)
+                    ):
                         self(src[key], dst[key], root + key + ".")
                         continue
                     elif self.key_strategy is None or not self.key_strategy(root + key):
